@@ -3,11 +3,11 @@ CONSTANTS
   GuardTrain = TRUE
   GridMaxN = 600
   MultiMaxN = 60
-  CalSizes = {2, 3, 4}
+  CalSizes = {4}
   ScoreLo <- Neg3
   ScoreHi = 3
   WeightSeq <- W124
-  AlphaSet <- Alphas4
+  AlphaSet <- A12
   RankMaxN = 60
   Export = TRUE
 CONSTRAINT CorrExport
